@@ -88,6 +88,8 @@ def stage(unit, workdir, repo, verif):
                                 repo.rstrip("/") + "/", repo_dir + "/"], capture_output=True, text=True)
             if r.returncode != 0:
                 raise StagingError("rsync failed: " + r.stderr[-500:])
+        elif kind == "lock_none":
+            pass  # crate with no registry dependencies
         elif kind == "lock":
             _copy(os.path.join(repo, "Cargo.lock"), os.path.join(crate_dir, "Cargo.lock"))
         elif kind == "shared_repo":
